@@ -358,14 +358,14 @@ def build(tier, seed):
         cost=20, timeout=300)
 
     # ---------------- EDATE / EOMONTH
-    def sp_edate(eom, ycon):
+    def sp_edate(eom, ycon, KR=None):
+        KR = KR if KR is not None else (600 if tier == 'thorough' else 24)
         lo = max(61, datetime.date(ycon, 1, 1).toordinal() - REF0)
         hi = datetime.date(ycon, 12, 31).toordinal() - REF0
 
         def spec():
             k = z3.Int('k')
             f = unwrap(XD.EOMONTH if eom else XD.EDATE)
-            KR = 600 if tier == 'thorough' else 24
             y0, m0, d0 = z3.Int('y0'), z3.Int('m0'), z3.Int('d0')
             civil = z3.And(y0 >= 1900, y0 <= 9999, m0 >= 1, m0 <= 12, d0 >= 1, d0 <= DM.month_days(y0, m0), DM.dfc(y0, m0, d0) == REF0 + n)
 
@@ -413,11 +413,13 @@ def build(tier, seed):
             def smp(nv, kv):
                 d = datetime.date.fromordinal(REF0 + nv)
                 return {'n': nv, 'k': kv, 'y0': d.year, 'm0': d.month, 'd0': d.day}
-            samples = [smp(x, kk) for x, kk in ((lo, 1), (lo, -1), (lo + 30, 13), (hi, 2), (hi - 306, 12), (lo + 58, -3), (hi, 0), (lo + 59, KR)) if lo <= x <= hi]
+            samples = [smp(x, max(-KR, min(KR, kk))) for x, kk in ((lo, 1), (lo, -1), (lo + 30, 13), (hi, 2), (hi - 306, 12), (lo + 58, -3), (hi, 0), (lo + 59, KR)) if lo <= x <= hi]
             return dict(encode=encode, bad=bad, replay=replay, norm=norm, native=call, samples=samples, show=lambda a: f'{"EOMONTH" if eom else "EDATE"}({a["n"]}, {a["k"]})')
         return spec
     KR = 600 if tier == 'thorough' else 24
-    for ycon in (1900, 1999, 2000, 2023, 2024, 2100, 9000):
+    add('EDATE[start in 1900, short offsets]', sp_edate(False, 1900, 4), 'every whole serial 61.. of the year 1900 x month offsets -4..4 (results before 1900-01-01 give #NUM!)', cost=30, timeout=600)
+    add('EOMONTH[start in 1900, short offsets]', sp_edate(True, 1900, 4), 'every whole serial 61.. of the year 1900 x month offsets -4..4', cost=30, timeout=600)
+    for ycon in (1950, 1999, 2000, 2023, 2024, 2100, 9000):
         add(f'EDATE[start in {ycon}]', sp_edate(False, ycon), f'every whole serial of the year {ycon} (from 61) x every month offset -{KR}..{KR}: same day of the month moved, clipped to the month\'s end; '
             '#NUM! when not after 1900-01-01', cost=15, timeout=600)
         add(f'EOMONTH[start in {ycon}]', sp_edate(True, ycon), f'every whole serial of the year {ycon} (from 61) x every month offset -{KR}..{KR}: last day of the month moved to', cost=15, timeout=600)
